@@ -17,11 +17,28 @@ LAKE_TARGETS = ["SharkVerif.Props.C10", "drv_c10"]
 TRUST = ("Lean 4.33 kernel; axioms at most propext/Classical.choice/Quot.sound (audited per run); hand-written model "
          "tied to the C++ by the correspondence harness (differential, generator-bounded); ")
 MANIFEST = dict(
-  text="(filled in below)",
-  note=TRUST,
+  text=("Theorems (Props/C10.lean) about executable models of SteepestDescent, Adam, the Rprop family, "
+        "AbstractLineSearchOptimizer with BFGS / CG / L-BFGS (unconstrained direction) and the backtracking line search, "
+        "for every objective (arbitrary f, grad, feasibility predicate), starting point, parameter setting and number of steps: "
+        "best_value_is_f_best_point (reported value = f(reported point) after init and every step, for every optimizer of the model and every scalar type incl. Float), "
+        "ls_derivative_is_grad_best_point, backtracking_no_increase (+ failure leaves point/value/gradient unchanged), "
+        "linesearch_methods_monotone_partial (one step does not increase the value given a non-ascent direction), direction_descent_neg_gradient, "
+        "bfgs_update_pd (quadratic-form identity x'H'x = z'Hz + (delta'x)^2/d of the BFGS update, hence PD-preservation), "
+        "box_feasible_inv_rprop (Rprop never leaves the feasible set), resume_same_iterates (read(write s) = s for the archived members, so a restored instance continues with the same iterates). "
+        "Tie: SteepestDescent/Adam/Rprop are compared bit for bit (Float instance of the same definitions, same operation order) and, for every C++ step that raised no FE_INEXACT, "
+        "exactly with the Rat instance; BFGS/CG/L-BFGS by one-step refinement from the harness' own previous state (bit-identical in >90% of the steps, 1e-9 tolerance otherwise); "
+        "save/restore at random step indices through text and binary archives into a 0xFF-poisoned fresh instance, strict and lenient protocol."),
+  note=TRUST + "proved only under a hypothesis: monotonicity needs the direction to be a non-ascent direction (established for the -gradient direction; "
+       "for BFGS only at the level of the scalar identity bfgs_update_pd, not connected to the list-based matrix model; not provable for the C++ CG restart branch); "
+       "only exercised by the correspondence / harness oracle (not theorems): dlinmin and wolfecubic line searches (contracts LSSound/LSNoIncrease are hypotheses, checked per step on the real code), "
+       "the box-constrained L-BFGS dog-leg (feasibility + monotonicity oracle only), TrustRegionNewton (oracle only: value=f(point), finite, no increase, resume), "
+       "finiteness, convergence on strictly convex quadratics (numerical: ||grad||_inf <= 1e-6(1+||b||_inf) after 400/1000 steps). "
+       "Findings F8a-e, F9, F10, F11 (findings_proposed/C10.md) make the check fail on the unpatched tree; it is green on the tree with the proposed patches.",
   technique="Lean 4 invariant/refinement proofs over all step sequences + differential correspondence with the C++ (ASan/UBSan), bit-exact and exact-rational modes",
   design="§6 C10")
-FINISH = dict(level="proof", rule="")
+FINISH = dict(level="proof",
+              rule="one case = objective (integer strictly convex quadratic A=M'M+kI n<=5 | Rosenbrock n<=4, optional dyadic box) + optimizer + "
+                   "dyadic starting point + steps with save/restore ops at random indices; non-trivial = at least 3 steps; distinct = distinct op text")
 
 
 def fb(x):
@@ -271,6 +288,13 @@ def classify(ops, res):
     if first_bad is None:
         first_bad = res.diff_at
     saves_before = [o.split()[2] for o in ops[:(first_bad if first_bad is not None else len(ops)) + 1] if o.startswith("save")]
+    otext = " ".join(res.oracle)
+    if opt == "trn" and "increased" in tags:
+        return ("F10:trn-accepts-increase", f"TrustRegionNewton accepts a step that increases the objective (borderDistance sign); ops {ops}")
+    if opt == "lbfgs" and "internal error" in otext:
+        return ("F11:lbfgs-box-internal-error", f"box-constrained LBFGS throws 'internal error' from computeSearchDirection; ops {ops}")
+    if opt == "lbfgs" and info["box"] and "input stream error" in otext:
+        return ("F9:lbfgs-box-nan-direction", f"box-constrained LBFGS stores a NaN search direction at a stationary boundary point; its text archive cannot be read back; ops {ops}")
     if saves_before and (res.crash or "resume-diverged" in tags or "exception" in tags or res.why.startswith("model-differs")):
         mode = saves_before[-1]
         how = "crash" if res.crash else ("exception" if "exception" in tags else "diverged")
@@ -347,6 +371,27 @@ def build(ctx):
     return ctx.harness("c10", ["c10.cpp"], repo_sources=REPO_SOURCES)
 
 
+def trn_instantiable(ctx):
+    """compile probe harness/c10_trn.cpp (syntax only, cached by the hash of the header)"""
+    hdr = os.path.join(core.REPO, "include/shark/Algorithms/GradientDescent/TrustRegionNewton.h")
+    src = os.path.join(core.VERIF, "harness", "c10_trn.cpp")
+    key = core.sha(core.file_sha(hdr) + core.file_sha(src))[:16]
+    stamp = os.path.join(core.CACHE, f"c10trn-{key}.rc")
+    if os.path.exists(stamp):
+        rc, out = int(open(stamp).read().split("\n", 1)[0]), open(stamp).read().split("\n", 1)[1]
+    else:
+        inc = ctx.shark_h()
+        rc, out = core.sh(["g++", "-std=c++11", "-fsyntax-only", "-DNDEBUG", "-w", "-I" + inc,
+                           "-I" + os.path.join(core.REPO, "include"), src], timeout=600)
+        open(stamp, "w").write(f"{rc}\n{out[-1500:]}")
+    ctx.cov["trn_instantiable"] = (rc == 0)
+    if rc != 0:
+        ctx.violation("F8c:trn-abstract-class", {"probe": "harness/c10_trn.cpp", "compiler_output": out[-1500:],
+                      "ops": ["(compile) shark::TrustRegionNewton optimizer;"]}, found_input=True,
+                      what="TrustRegionNewton cannot be instantiated: init(ObjectiveFunctionType&, ...) does not override the pure virtual init(ObjectiveFunctionType const&, ...)")
+    return rc == 0
+
+
 def record(ctx, cases):
     for c in cases:
         i = case_info(c)
@@ -365,6 +410,7 @@ def run(ctx):
     drv = ctx.driver("drv_c10")
     if not exe or not drv:
         return
+    trn_instantiable(ctx)
     corpus = load_corpus()
     ctx.cov["corpus_cases"] = len(corpus)
     r = ctx.rng.fork("c10")
